@@ -305,7 +305,7 @@ def run_rel_case(case, worlds):
         names.append(rel_resolve(names[-1], rel))
         vbs.append(rb.varbind(rb.tlv(0x0D, rel_content(rel, i in full)), rb.enc_int(100 + i)))
     o = w.send("get_many", [rb.oid_str(chain[0])])
-    req = drivers.open_request(cfg, w.take_request())
+    req = drivers.open_request(cfg, w.take_request(), strict=False, check_mac=False)
     w.inject(drivers.reply_for(cfg, req, vbs))
     out = w.recv("get_many")
     exp = {}
@@ -395,7 +395,7 @@ def run_case(case, worlds=None):
             o = w.send("getbulk", it=it)
         if o.kind != "ok":
             return None, "send failed %r" % (o.brief(),), built, 1
-        req = drivers.open_request(cfg, w.take_request())
+        req = drivers.open_request(cfg, w.take_request(), strict=False, check_mac=False)
         rep, names = make_reply(cfg, req, case, built)
         if len(rep) > 4000:
             return "skip", None, built, 1
@@ -407,7 +407,7 @@ def run_case(case, worlds=None):
         return got, err, built, 2
 
     def responder(data, idx):
-        req = drivers.open_request(cfg, data)
+        req = drivers.open_request(cfg, data, strict=False, check_mac=False)
         if idx == 0:
             rep, names = make_reply(cfg, req, case, built)
             state["names"] = names
